@@ -90,22 +90,29 @@ pub fn gen_sys(ctx: &mut Context, rng: &mut SmallRng, cfg: &SysCfg, tag: &str) -
     let ns = rng.random_range(1..=cfg.max_states);
     let ni = rng.random_range(0..=cfg.max_inputs);
     let mut bits = 0u32;
-    let mut state_syms = vec![];
-    let mut arr_syms = vec![];
+    // decide the state types first, then create the symbols in a random order: the position of a state in `sys.states`
+    // says nothing about the order of the symbol references
+    let mut kinds: Vec<(usize, Option<u32>, u32)> = vec![]; // (k, array data width, bv width)
     for k in 0..ns {
         if cfg.arrays && k == ns - 1 && ns > 1 && rng.random_range(0..4) == 0 && bits + 2 <= cfg.max_bits {
             let dw = if bits + 4 <= cfg.max_bits && rng.random_bool(0.4) { 2 } else { 1 };
-            let m = ctx.array_symbol(&format!("{tag}m{k}"), 1, dw);
             bits += 2 * dw;
-            arr_syms.push(m);
-            state_syms.push(m);
+            kinds.push((k, Some(dw), 0));
         } else {
             let mut w = if cfg.wide { *[1u32, 2, 3, 8, 33, 65].choose(rng).unwrap() } else { rng.random_range(1..=cfg.max_state_w) };
             if !cfg.wide && bits + w > cfg.max_bits { w = 1; }
             if !cfg.wide && bits + w > cfg.max_bits { break; }
             bits += w;
-            state_syms.push(ctx.bv_symbol(&format!("{tag}s{k}"), w));
+            kinds.push((k, None, w));
         }
+    }
+    let mut creation: Vec<usize> = (0..kinds.len()).collect();
+    if rng.random_bool(0.5) { creation.shuffle(rng); }
+    let mut state_syms: Vec<ExprRef> = vec![ctx.zero(1); kinds.len()];
+    let mut arr_syms = vec![];
+    for j in creation {
+        let (k, arr, w) = kinds[j];
+        state_syms[j] = match arr { Some(dw) => { let m = ctx.array_symbol(&format!("{tag}m{k}"), 1, dw); arr_syms.push(m); m } None => ctx.bv_symbol(&format!("{tag}s{k}"), w) };
     }
     let mut input_syms = vec![];
     let mut ibits = 0;
